@@ -666,9 +666,19 @@ impl<'a> Model<'a> {
         let months_abs = months.unsigned_abs();
 
         let native_date = if months > 0 {
-            date + Months::new(months_abs)
+            date.checked_add_months(Months::new(months_abs))
         } else {
-            date - Months::new(months_abs)
+            date.checked_sub_months(Months::new(months_abs))
+        };
+        let native_date = match native_date {
+            Some(d) => d,
+            None => {
+                return CalcResult::Error {
+                    error: Error::NUM,
+                    origin: cell,
+                    message: "Out of range parameters for date".to_string(),
+                }
+            }
         };
 
         // Instead of calculating the end of month we compute the first day of the following month
@@ -822,9 +832,19 @@ impl<'a> Model<'a> {
         let months_abs = months.unsigned_abs();
 
         let native_date = if months > 0 {
-            date + Months::new(months_abs)
+            date.checked_add_months(Months::new(months_abs))
         } else {
-            date - Months::new(months_abs)
+            date.checked_sub_months(Months::new(months_abs))
+        };
+        let native_date = match native_date {
+            Some(d) => d,
+            None => {
+                return CalcResult::Error {
+                    error: Error::NUM,
+                    origin: cell,
+                    message: "Out of range parameters for date".to_string(),
+                }
+            }
         };
 
         let serial_number = native_date.num_days_from_ce() - EXCEL_DATE_BASE;
@@ -1627,12 +1647,30 @@ impl<'a> Model<'a> {
         };
         while days != 0 {
             if days > 0 {
-                date += chrono::Duration::days(1);
+                date = match date.checked_add_signed(chrono::Duration::days(1)) {
+                    Some(d) => d,
+                    None => {
+                        return CalcResult::Error {
+                            error: Error::NUM,
+                            origin: cell,
+                            message: "Out of range parameters for date".to_string(),
+                        }
+                    }
+                };
                 if !Self::is_weekend(date.weekday(), &weekend) && !holiday_set.contains(&date) {
                     days -= 1;
                 }
             } else {
-                date -= chrono::Duration::days(1);
+                date = match date.checked_sub_signed(chrono::Duration::days(1)) {
+                    Some(d) => d,
+                    None => {
+                        return CalcResult::Error {
+                            error: Error::NUM,
+                            origin: cell,
+                            message: "Out of range parameters for date".to_string(),
+                        }
+                    }
+                };
                 if !Self::is_weekend(date.weekday(), &weekend) && !holiday_set.contains(&date) {
                     days += 1;
                 }
@@ -1706,13 +1744,31 @@ impl<'a> Model<'a> {
 
         while days != 0 {
             if days > 0 {
-                date += chrono::Duration::days(1);
+                date = match date.checked_add_signed(chrono::Duration::days(1)) {
+                    Some(d) => d,
+                    None => {
+                        return CalcResult::Error {
+                            error: Error::NUM,
+                            origin: cell,
+                            message: "Out of range parameters for date".to_string(),
+                        }
+                    }
+                };
                 if !Self::is_weekend(date.weekday(), &weekend_mask) && !holiday_set.contains(&date)
                 {
                     days -= 1;
                 }
             } else {
-                date -= chrono::Duration::days(1);
+                date = match date.checked_sub_signed(chrono::Duration::days(1)) {
+                    Some(d) => d,
+                    None => {
+                        return CalcResult::Error {
+                            error: Error::NUM,
+                            origin: cell,
+                            message: "Out of range parameters for date".to_string(),
+                        }
+                    }
+                };
                 if !Self::is_weekend(date.weekday(), &weekend_mask) && !holiday_set.contains(&date)
                 {
                     days += 1;
